@@ -324,32 +324,41 @@ where
         }
         let record = Record::create(key, timestamp.into(), value, meta)
             .with_context(|| "storage write with record creation failed")?;
-        let safe = self.inner.safe.read().await;
-        let blob = safe
-            .active_blob
-            .as_ref()
-            .ok_or_else(Error::active_blob_not_set)?;
-        let result = Blob::write(blob, key, record).await.or_else::<anyhow::Error, _>(|err| {
-            let e = err.downcast::<Error>()?;
-            if let ErrorKind::FileUnavailable(kind) = e.kind() {
-                let work_dir = self
-                    .inner
-                    .config
-                    .work_dir()
-                    .ok_or_else(Error::uninitialized)?;
-                Err(Error::work_dir_unavailable(work_dir, e.to_string(), kind.to_owned()).into())
-            } else {
-                Err(e.into())
-            }
-        })?;
-        self.try_update_active_blob(blob).await?;
+        let (result, need_update) = {
+            let safe = self.inner.safe.read().await;
+            let blob = safe
+                .active_blob
+                .as_ref()
+                .ok_or_else(Error::active_blob_not_set)?;
+            let result = Blob::write(blob, key, record).await.or_else::<anyhow::Error, _>(|err| {
+                let e = err.downcast::<Error>()?;
+                if let ErrorKind::FileUnavailable(kind) = e.kind() {
+                    let work_dir = self
+                        .inner
+                        .config
+                        .work_dir()
+                        .ok_or_else(Error::uninitialized)?;
+                    Err(Error::work_dir_unavailable(work_dir, e.to_string(), kind.to_owned()).into())
+                } else {
+                    Err(e.into())
+                }
+            })?;
+            (result, self.need_update_active_blob(blob).await?)
+        };
+        // Worker is notified only after the `safe` lock is released. Worker needs the exclusive `safe` lock
+        // to replace the active blob; when the channel is full, senders that wait for a free slot while holding
+        // the shared lock and the worker that waits for the exclusive lock block each other forever
+        if need_update {
+            self.observer.try_update_active_blob().await;
+        }
         if self.inner.should_try_fsync(result.dirty_bytes) {
             self.observer.try_fsync_data().await;
         }
         Ok(())
     }
 
-    async fn try_update_active_blob(&self, active_blob: &Box<ASRwLock<Blob<K>>>) -> Result<()> {
+    /// Checks whether active blob reached its limits and is old enough to be replaced
+    async fn need_update_active_blob(&self, active_blob: &Box<ASRwLock<Blob<K>>>) -> Result<bool> {
         let config_max_size = self
             .inner
             .config
@@ -371,10 +380,10 @@ where
                 Err(d) => d,
             };
             if dur.as_millis() > self.inner.config.debounce_interval_ms() as u128 {
-                self.observer.try_update_active_blob().await;
+                return Ok(true);
             }
         }
-        Ok(())
+        Ok(false)
     }
 
     /// Reads the first found data matching given key.
@@ -1054,39 +1063,49 @@ where
     }
 
     async fn delete_with_optional_meta(&self, key: impl AsRef<K>, timestamp: BlobRecordTimestamp, meta: Option<Meta>, only_if_presented: bool) -> Result<u64> {
-        {
-            // Try read lock first
-            let safe = self.inner.safe.read().await;
-            if only_if_presented || safe.active_blob.is_some() {
-                return self.delete_core(&safe, key.as_ref(), timestamp, meta, only_if_presented).await;
+        let delete_result = 'locked: {
+            {
+                // Try read lock first
+                let safe = self.inner.safe.read().await;
+                if only_if_presented || safe.active_blob.is_some() {
+                    break 'locked self.delete_core(&safe, key.as_ref(), timestamp, meta, only_if_presented).await;
+                }
             }
-        }
 
-        // Active blob should be initialized => use write lock
-        let mut safe = self.inner.safe.write().await;
-        if !only_if_presented {
-            self.inner.ensure_active_blob_exists(&mut safe).await?;
+            // Active blob should be initialized => use write lock
+            let mut safe = self.inner.safe.write().await;
+            if !only_if_presented {
+                self.inner.ensure_active_blob_exists(&mut safe).await?;
+            }
+            self.delete_core(&mut safe, key.as_ref(), timestamp, meta, only_if_presented).await
+        };
+        let (deleted, defer_dump, try_fsync) = delete_result?;
+
+        // Worker is notified only after the `safe` lock is released (see `write_with_optional_meta`)
+        if defer_dump {
+            self.observer.defer_dump_old_blob_indexes().await;
         }
-        return self.delete_core(&mut safe, key.as_ref(), timestamp, meta, only_if_presented).await;
+        if try_fsync {
+            self.observer.try_fsync_data().await;
+        }
+        Ok(deleted)
     }
 
-    /// Core deletion logic, when lock on `Safe<K>` is acquired
-    async fn delete_core(&self, safe: &Safe<K>, key: &K, timestamp: BlobRecordTimestamp, meta: Option<Meta>, only_if_presented: bool) -> Result<u64> {
+    /// Core deletion logic, when lock on `Safe<K>` is acquired.
+    /// Returns the number of marked blobs and the notifications the caller should send to the worker
+    /// after releasing the lock: (deleted, defer index dump, try fsync)
+    async fn delete_core(&self, safe: &Safe<K>, key: &K, timestamp: BlobRecordTimestamp, meta: Option<Meta>, only_if_presented: bool) -> Result<(u64, bool, bool)> {
         let deleted_in_active_result = Self::delete_in_active(safe, key, timestamp, meta.clone(), only_if_presented).await?;
         let deleted_in_active = deleted_in_active_result.as_ref().map(|r| if r.deleted { 1 } else { 0 }).unwrap_or(0);
         let deleted_in_closed = Self::delete_in_closed(safe, key, timestamp, meta).await?;
 
-        if deleted_in_closed > 0 {
-            self.observer.defer_dump_old_blob_indexes().await;
-        }
-        if let Some(result) = deleted_in_active_result {
-            if self.inner.should_try_fsync(result.dirty_bytes) {
-                self.observer.try_fsync_data().await;
-            }
-        }
+        let defer_dump = deleted_in_closed > 0;
+        let try_fsync = deleted_in_active_result
+            .map(|result| self.inner.should_try_fsync(result.dirty_bytes))
+            .unwrap_or(false);
 
         debug!("{} deleted total", deleted_in_active + deleted_in_closed);
-        Ok(deleted_in_active + deleted_in_closed)
+        Ok((deleted_in_active + deleted_in_closed, defer_dump, try_fsync))
     }
 
     async fn delete_in_closed(safe: &Safe<K>, key: &K, timestamp: BlobRecordTimestamp, meta: Option<Meta>) -> Result<u64> {
